@@ -1,5 +1,5 @@
 // bounded stand-in / replay driver (appended to acts/src/cache/tests.rs of a scratch copy): property C11.
-// (also C03: the process state mirrors a terminal root task.)  At quiescent points of 5 histories (waiting at an act; after a completed act; an error taken by an empty catch; an error taken by a
+// (also C03: the process state mirrors a terminal root task.)  At quiescent points of 6 histories (an eviction + reload while tasks are in flight; waiting at an act; after a completed act; an error taken by an empty catch; an error taken by a
 // catch with steps; an aborted process kept in the store) the process row and the task rows in the store are compared with the live
 // process: same set of tasks, per task state / prev / data / error / start and end time, per process state / error / env.
 #[tokio::test]
@@ -8,8 +8,8 @@ async fn verif_replay_hist_store_image() {
     use std::sync::{Arc, Mutex};
     let mut bad: Vec<String> = Vec::new();
     #[derive(Clone, Copy, Debug, PartialEq)]
-    enum H { Waiting, AfterComplete, EmptyCatch, CatchWithSteps, Aborted }
-    for h in [H::Waiting, H::AfterComplete, H::EmptyCatch, H::CatchWithSteps, H::Aborted] {
+    enum H { Waiting, AfterComplete, EmptyCatch, CatchWithSteps, Aborted, EvictedInFlight }
+    for h in [H::Waiting, H::AfterComplete, H::EmptyCatch, H::CatchWithSteps, H::Aborted, H::EvictedInFlight] {
         let config = crate::config::ConfigData { keep_processes: Some(true), cache_cap: Some(100), ..crate::config::ConfigData::default() };
         let engine = EngineBuilder::new().set_config(&config).build().await.unwrap().start();
         let rt = engine.runtime();
@@ -31,7 +31,7 @@ async fn verif_replay_hist_store_image() {
         engine.channel().on_message(move |e| {
             if e.is_key("act1") && e.is_state(MessageState::Created) {
                 match h {
-                    H::Waiting => { *q2.lock().unwrap() = true; }
+                    H::Waiting | H::EvictedInFlight => { *q2.lock().unwrap() = true; }
                     H::AfterComplete => { let _ = s.do_action(&Action::new(&e.pid, &e.tid, EventAction::Next, &Vars::new().with("a", 5))); }
                     H::EmptyCatch | H::CatchWithSteps => {
                         let mut o = Vars::new(); o.set(consts::ACT_ERR_CODE, "err1"); o.set(consts::ACT_ERR_MESSAGE, "biz error");
@@ -42,10 +42,24 @@ async fn verif_replay_hist_store_image() {
             }
             if e.is_key("act2") && e.is_state(MessageState::Created) { *q2.lock().unwrap() = true; }
         });
+        if h == H::EvictedInFlight {
+            // the process is dropped from the cache and reloaded from the store WHILE its first step is starting (tasks in flight): the
+            // tasks that go on reporting afterwards must end up in the process the API hands out
+            let (c, r, p, once) = (rt.cache().clone(), rt.clone(), pid.clone(), Arc::new(Mutex::new(false)));
+            rt.scher().on_task(move |e| {
+                if e.inner().node().id() == "step1" && e.inner().state().is_running() && !*once.lock().unwrap() {
+                    *once.lock().unwrap() = true;
+                    c.uncache(&p);
+                    let _ = c.proc(&p, &r);
+                }
+            });
+        }
         rt.launch(&proc);
         for _ in 0..400 { if *quiet.lock().unwrap() { break; } tokio::time::sleep(std::time::Duration::from_millis(25)).await; }
         tokio::time::sleep(std::time::Duration::from_millis(500)).await;
         if !*quiet.lock().unwrap() { bad.push(format!("REPLAY-FAIL history {h:?}: the quiescent point was never reached (process {})", proc.state())); continue; }
+        // the live process AS SEEN THROUGH THE API (after an eviction that is the reloaded object the cache hands out)
+        let proc = if h == H::EvictedInFlight { match rt.cache().proc(&pid, &rt) { Some(p) => p, None => { bad.push(format!("REPLAY-FAIL history {h:?}: the process is not available through the cache")); continue; } } } else { proc.clone() };
         let store = rt.cache().store();
         let rows = store.tasks().query(&Query::new().push(Cond::and().push(Expr::eq("pid", pid.clone()))).set_limit(1000)).unwrap().rows;
         let live = proc.tasks();
